@@ -325,6 +325,13 @@ func genProducer(c *cf.Case, r *cf.Rng, prop string) {
 				op.ValLen = 0
 			}
 		}
+		if cfg.Idempotent && !cfg.Sync && r.Intn(5) == 0 {
+			op.Arg = "reuse" // submitted in a message object recycled from Successes(), if one is at hand
+		}
+		if (prop == "C18" || prop == "C04" || prop == "C01") && r.Intn(12) == 0 {
+			op.ValLen = -2 // a tombstone: key only, no value
+			op.KeyLen = 8
+		}
 		if headersOK && r.Intn(4) == 0 {
 			op.Headers = r.Range(1, 3)
 		}
